@@ -1,6 +1,7 @@
 package actionlint
 
 import (
+	"sort"
 	"strconv"
 	"strings"
 )
@@ -162,7 +163,16 @@ func collectCycle(src *jobNode, edges map[*jobNode]*jobNode) bool {
 // https://inzkyk.xyz/algorithms/depth_first_search/detecting_cycles/
 
 func detectFirstCycle(nodes map[string]*jobNode) *edge {
+	// Visit nodes in the order of their positions in the source. Iterating the map directly makes
+	// the detected cycle random when there are multiple cycles
+	vs := make([]*jobNode, 0, len(nodes))
 	for _, v := range nodes {
+		vs = append(vs, v)
+	}
+	sort.Slice(vs, func(i, j int) bool {
+		return vs[i].pos.IsBefore(vs[j].pos)
+	})
+	for _, v := range vs {
 		if v.status == nodeStatusNew {
 			if e := detectCyclicNode(v); e != nil {
 				return e
